@@ -601,6 +601,18 @@ func TestDispatch(t *testing.T) {
 					}
 					continue
 				}
+				if c.Expect == "error" {
+					if err == nil {
+						got := "?"
+						if pl, ok := msg.(*kmip.ResponseMessage).BatchItem[0].ResponsePayload.(*payloads.GetAttributesResponsePayload); ok && len(pl.Attribute) == 1 {
+							got = fmt.Sprintf("%T", pl.Attribute[0].AttributeValue)
+						}
+						probs = append(probs, fmt.Sprintf("value-of-another-type-accepted:%q:type%d:as=%s", name, c.Code, got))
+					} else if strings.HasPrefix(err.Error(), "panic") {
+						probs = append(probs, "panic:"+err.Error())
+					}
+					continue
+				}
 				if err != nil {
 					probs = append(probs, fmt.Sprintf("decode-error:%q:%v", name, err))
 					continue
